@@ -15,6 +15,7 @@ RUNNER = "tdgl.solver.runner"
 def _machine(repo, tr, existing, self_state, entry):
     C = repo.cls(RUNNER, "DataHandler")
     handles = {}
+    dirs = {"CWD", "TMPDIR"} | {p_.rsplit("/", 1)[0] for p_ in existing if "/" in p_}       # directories of the model file system
 
     def attrs(text):
         if text.endswith("tempdir.name"):
@@ -28,7 +29,10 @@ def _machine(repo, tr, existing, self_state, entry):
             path = args[0] if args else kwargs.get("name")
             mode = args[1] if len(args) > 1 else kwargs.get("mode", "r")
             ok = not (isinstance(path, str) and path in existing and mode in ("x", "w-"))
-            tr.events.append(Ev("OPEN", path=path if isinstance(path, str) else render(path), mode=mode, ok=ok))
+            no_dir = isinstance(path, str) and "/" in path and path.rsplit("/", 1)[0] not in dirs
+            tr.events.append(Ev("OPEN", path=path if isinstance(path, str) else render(path), mode=mode, ok=ok and not no_dir))
+            if no_dir:
+                raise Raised("FileNotFoundError")       # h5py: OSError "unable to create file", no such directory
             if not ok:
                 raise Raised("FileExistsError")
             h = Opaque(f"<file {path}>")
@@ -46,7 +50,20 @@ def _machine(repo, tr, existing, self_state, entry):
             existing.discard(args[0])
             return None
         if name == "os.path.join" and all(isinstance(a, str) for a in args):
-            return "/".join(args)
+            return "/".join(a for a in args if a != "")
+        if name in ("os.path.splitext", "os.path.split", "os.path.basename", "os.path.dirname") and len(args) == 1 and isinstance(args[0], str):
+            import posixpath
+            r_ = getattr(posixpath, short)(args[0])
+            return list(r_) if isinstance(r_, tuple) else r_
+        if short == "mkdir" and isinstance(recv, Opaque):
+            # Path(output).parent.mkdir(...): the directory of the requested path exists from here on
+            chain = recv
+            if chain.parts and chain.parts[0] == "attr" and chain.parts[2] == "parent" and isinstance(chain.parts[1], Opaque) \
+                    and chain.parts[1].parts and chain.parts[1].parts[0] == "call" and chain.parts[1].parts[2] and isinstance(chain.parts[1].parts[2][0], str):
+                target = chain.parts[1].parts[2][0]
+                dirs.add("CWD/" + target.rsplit("/", 1)[0] if "/" in target else "CWD")
+                tr.events.append(Ev("MKDIR", path="CWD/" + target.rsplit("/", 1)[0] if "/" in target else "CWD"))
+                return None
         if name == "os.getcwd":
             return "CWD"
         if short == "cleanup":
@@ -94,6 +111,13 @@ def create_scenarios():
         {"name": "a stale tmp file and -1 exist", "output": "run/out.h5", "existing": [f"{base}.h5.tmp", f"{base}-1.h5"],
          "want": (f"{base}-2.h5", f"{base}-2.h5.tmp")},
         {"name": "no output file requested", "output": None, "existing": [], "want": ("TMPDIR/output.h5", "TMPDIR/output.h5.tmp")},
+        # the serial number belongs to the file name: a dot in a directory name must not attract it
+        {"name": "a dot in the directory name, nothing exists", "output": "run.v2/out.h5", "existing": [],
+         "want": ("CWD/run.v2/out.h5", "CWD/run.v2/out.h5.tmp")},
+        {"name": "a dot in the directory name, the requested name exists", "output": "run.v2/out.h5", "existing": ["CWD/run.v2/out.h5"],
+         "want": ("CWD/run.v2/out-1.h5", "CWD/run.v2/out-1.h5.tmp")},
+        {"name": "a dot in the directory name only, the requested name exists", "output": "run.v2/out", "existing": ["CWD/run.v2/out"],
+         "want": ("CWD/run.v2/out-1", "CWD/run.v2/out-1.tmp")},
     ]
 
 
@@ -107,7 +131,13 @@ def trace_create(repo, sc) -> RunTrace:
     if params[:2] != ["self", "output"] or len(params) != 2:
         raise AnalysisError(f"DataHandler._create_output_file has the parameters {params}")
     mach.env.update({"self": Opaque("self"), "output": sc["output"]})
-    tr.outcome = mach.run_function(f.node)
+    from .smallstep import Undecidable
+    try:
+        tr.outcome = mach.run_function(f.node)
+    except Undecidable as e:
+        if "does not terminate" not in str(e):
+            raise
+        tr.outcome = ("diverges", [e_.path for e_ in tr.kinds("OPEN")][-3:])
     tr.existing_after = existing
     return tr
 
